@@ -109,6 +109,16 @@ CHECKS['C19'] = _mc('zk', 'DESIGN.md 5/C19',
   'stepped through every transition of the bounded graph; consumer-visible joins/leaves are judged by TLC (agree, alternate, survivesErrors).',
   'Trusted: FakeZK implements documented one-shot watch semantics; known finding C19-stale-children-watch (path re-created before the deletion was processed).')
 
+CHECKS['C06'] = _mc('aperture', 'DESIGN.md 5/C06',
+  'TLC check of code-shaped Aperture.tla (idle/pending sets, expand/contract/jitter, control law with abstract EMA) incl. the temporal property '
+  '<>[](InBand \\/ Pinned) under fairness; model bound to the code by ApertureTrace (projection after every driver operation); gauges published by '
+  'the real ApertureBalancerSink under long virtual-time traffic histories validated by TLC against ApertureAbsTrace',
+  'Partition, floor, ceiling, grow/shrink step rules and settling are decided by TLC on the published gauges (active, idle, load_average) of the '
+  'real balancer for configurations min_size 1-3, max_size 1-5, 1-6 members, three load bands, with failures, joins/leaves and jitter rounds; '
+  'the EMA abstraction of the model is validated per sample (between-ness).',
+  'Trusted: mock channels and server set below/above the balancer; settles only claimed for max_load > 2*min_load; C06.smoothed (between-ness of '
+  'the published average) ties the published load to the true outstanding count.')
+
 PENDING = {}
 
 ALL = ['C%02d' % i for i in range(1, 21)]
